@@ -1634,6 +1634,43 @@ def run_r17(ctx, rule):
         rule.bad("header-store/sites", "fewer than 3 header stores found (cnf, wcnf, gcnf counted)", kind="anchor-missing")
 
 
+def run_r21(ctx, rule):
+    """The comment section is framed the same way by both writers and unframed by one parser: `c`, line feed, the text,
+    one line feed - the parser cuts exactly one final line feed off.  The writers must emit that frame unconditionally:
+    a terminator that is left out when the text already ends in a line feed makes the parser cut a line feed of the
+    text itself."""
+    facts = ctx.facts
+    seqs = {}
+    for mod in ("ascii", "binary"):
+        ids = [i for i in facts.fns if norm(i) == "flussab_aiger::%s::Writer::write_comment" % mod]
+        if not ids:
+            rule.bad("%s/write_comment/missing" % mod, "anchor missing: %s::Writer::write_comment" % mod, kind="anchor-missing")
+            continue
+        f = facts.fns[ids[0]]
+        sy = sym(f)
+        c = cfg(f)
+        paths = [p for p, cut in c.paths(limit=200) if f.term(p[-1])["k"] == "return"]
+        forms = set()
+        for p in paths:
+            seq = []
+            for bb in p:
+                t = f.term(bb)
+                if t["k"] != "call":
+                    continue
+                cn = norm(util.cname(t))
+                if cn.endswith(("write_all_defer_err", "Write::write_all", "Write>::write_all")) and len(t["args"]) > 1:
+                    a = sy.operand(t["args"][1])
+                    while a[0] == "cast":
+                        a = a[2]
+                    seq.append(a[1] if a[0] == "cb" else "<text>")
+            forms.add(tuple(seq))
+        seqs[mod] = forms
+        want = (b"c\n", "<text>", b"\n")
+        rule.check(forms == {want}, "%s/write_comment/frame" % mod, "%s: the comment is written as `c` LF, the text, LF on every path  [%s]" % (mod, sorted(forms, key=str)[:3]), f.loc())
+    if len(seqs) == 2:
+        rule.check(seqs["ascii"] == seqs["binary"], "write_comment/siblings", "the ascii and the binary writer frame the comment alike")
+
+
 def run(ctx):
     r1 = ctx.rule("C03-R1", "BTOR2 keywords: writer and reader tables are the same bijection and cover every variant", floor=130)
     run_r1(ctx, r1)
@@ -1676,6 +1713,8 @@ def run(ctx):
     from .c06 import run_r2 as c06_r2
     r20 = ctx.rule("C03-R20", "DIMACS readers refuse only what a declared count or the literal type excludes: default limits accept everything the writers can emit (shared with C06-R2)", floor=20)
     c06_r2(ctx, r20)
+    r21 = ctx.rule("C03-R21", "AIGER comment section: both writers emit `c` LF, the text and one LF unconditionally (the parser cuts exactly one final line feed)", floor=3)
+    run_r21(ctx, r21)
     from .c06 import run_r6 as c06_r6
     r13b = ctx.rule("C03-R13b", "the reader accepts every delta the writer can emit: a delta equal to its reference code (the constant 0 as a gate input) is not rejected (shared with C06-R6)", floor=1)
     c06_r6(ctx, r13b, inclusive_only=True)
